@@ -22,10 +22,13 @@
     C16_tversky_loss_focal C16_tversky_loss_error_passthrough C16_tversky_loss_identical C16_tversky_loss_range
     C16_tversky_loss_symmetric C16_tversky_loss_reductions C16_tversky_loss_half_is_dice_loss
     C16_tversky_weight_binary_accepted
+    C16_tversky_encoding_pred1_target2 C16_tversky_encoding_pred2_target1 C16_tversky_encoding_pred1_labels
+    C16_tversky_encoding_pred2_labels C16_tversky_encoding_identical C16_tversky_labels_out_of_range
     C16_ncc_mask_refuted C16_ncc_mask_always_rejected C16_mi_mask_refuted
 -/
 import Deepali.Proofs.LossesWrappers
 import Deepali.Proofs.LossesOverlap
+import Deepali.Proofs.LossesEncoding
 import Mathlib.Tactic.NormNum
 
 set_option linter.unusedSectionVars false
@@ -473,5 +476,140 @@ theorem C16_mi_mask_refuted : ¬ C16_mi_mask_Statement := by
   revert this
   norm_num [miLoss, miPrep, miLossCore, miEntropies, miProbs, sumTo, expandAs, bcastIdx, prod, getM, memoArr,
     bind, Except.bind, pure, Except.pure]
+
+
+section Encodings
+variable {K : Type} [Field K] [LinearOrder K] [IsStrictOrderedRing K] [FloorRing K]
+
+/-! ## the documented encodings of a binary segmentation (after fix 03f6276)
+
+`p`, `t : Nat → K` are binary segmentations of `N` images with `S = prod sp` samples each
+(`IsBinary · (N * S)`).  Encodings: foreground channel = tensor `(N, 1, …X)` with data `p`; one-hot =
+tensor `(N, 2, …X)` with data `oneHot 2 S p` (channel 0 background, channel 1 foreground); label map =
+tensor `(N, …X)` with data `p`.  In every mixed encoding `tversky_index` evaluates the foreground/foreground
+index `tverskyAt S p t` — the index does not depend on the encoding. -/
+
+/-- prediction foreground channel, target one-hot. -/
+theorem C16_tversky_encoding_pred1_target2 (red : Reduction) (N : Nat) (sp : List Nat) (hsp : 2 ≤ sp.length)
+    (x y : T K) (t : Nat → K) (hx : x.shape = N :: 1 :: sp) (hy : y.shape = N :: 2 :: sp)
+    (hyd : y.data = oneHot 2 (prod sp) t) (ht : IsBinary t (N * prod sp)) (alpha beta eps : K) :
+    tverskyIndex red x y none alpha beta eps false
+      = .ok (reduceLoss red (N * 1) (tverskyAt (prod sp) x.data t none alpha beta eps) none) := by
+  unfold tverskyIndex
+  rw [tverskyPrep_pred1_target2 N sp hsp x y hx hy]
+  simp only [finish, Except.map]
+  congr 1
+  apply reduceLoss_congr
+  intro k hk
+  apply tverskyAt_congr' _ _ _ _ _ _ _ _ k k (fun s _ => rfl)
+  intro s hs
+  rw [hyd]
+  exact narrow1_oneHot2 _ t k s hs (ht _ (idx_lt k N _ s (by omega) hs))
+
+/-- prediction one-hot, target foreground channel. -/
+theorem C16_tversky_encoding_pred2_target1 (red : Reduction) (N : Nat) (sp : List Nat) (hsp : 2 ≤ sp.length)
+    (x y : T K) (p : Nat → K) (hx : x.shape = N :: 2 :: sp) (hy : y.shape = N :: 1 :: sp)
+    (hxd : x.data = oneHot 2 (prod sp) p) (hp : IsBinary p (N * prod sp)) (alpha beta eps : K) :
+    tverskyIndex red x y none alpha beta eps false
+      = .ok (reduceLoss red (N * 1) (tverskyAt (prod sp) p y.data none alpha beta eps) none) := by
+  unfold tverskyIndex
+  rw [tverskyPrep_pred2_target1 N sp hsp x y hx hy]
+  simp only [finish, Except.map]
+  congr 1
+  apply reduceLoss_congr
+  intro k hk
+  refine tverskyAt_congr' _ _ _ _ _ _ _ _ k k ?_ (fun s _ => rfl)
+  intro s hs
+  rw [hxd]
+  exact narrow1_oneHot2 _ p k s hs (hp _ (idx_lt k N _ s (by omega) hs))
+
+/-- prediction foreground channel, target label map. -/
+theorem C16_tversky_encoding_pred1_labels (red : Reduction) (N : Nat) (sp : List Nat) (hsp : 2 ≤ sp.length)
+    (hpos : 0 < prod sp) (x y : T K) (hx : x.shape = N :: 1 :: sp) (hy : y.shape = N :: sp)
+    (ht : IsBinary y.data (N * prod sp)) (alpha beta eps : K) :
+    tverskyIndex red x y none alpha beta eps false
+      = .ok (reduceLoss red (N * 1) (tverskyAt (prod sp) x.data y.data none alpha beta eps) none) := by
+  unfold tverskyIndex
+  rw [tverskyPrep_pred1_labels N sp hsp hpos x y hx hy]
+  simp only [finish, Except.map]
+  congr 1
+  apply reduceLoss_congr
+  intro k hk
+  apply tverskyAt_congr' _ _ _ _ _ _ _ _ k k (fun s _ => rfl)
+  intro s hs
+  exact ge_half_binary y.data _ (ht _ (idx_lt k N _ s (by omega) hs))
+
+/-- prediction one-hot, target label map (the case repaired by 03f6276): two values per image;
+    the foreground one (flat index `2n + 1`) is the foreground/foreground index. -/
+theorem C16_tversky_encoding_pred2_labels (red : Reduction) (N : Nat) (sp : List Nat) (hsp : 2 ≤ sp.length)
+    (hpos : 0 < prod sp) (x y : T K) (p : Nat → K) (hx : x.shape = N :: 2 :: sp) (hy : y.shape = N :: sp)
+    (hxd : x.data = oneHot 2 (prod sp) p) (hp : IsBinary p (N * prod sp)) (ht : IsBinary y.data (N * prod sp))
+    (alpha beta eps : K) :
+    tverskyIndex red x y none alpha beta eps false
+      = .ok (reduceLoss red (N * 2)
+          (tverskyAt (prod sp) (oneHot 2 (prod sp) p) (oneHot 2 (prod sp) y.data) none alpha beta eps) none) ∧
+    ∀ n, n < N →
+      tverskyAt (prod sp) (oneHot 2 (prod sp) p) (oneHot 2 (prod sp) y.data) none alpha beta eps (2 * n + 1)
+        = tverskyAt (prod sp) p y.data none alpha beta eps n := by
+  constructor
+  · unfold tverskyIndex
+    rw [tverskyPrep_pred2_labels N sp hsp hpos x y hx hy alpha beta eps
+      (fun i hi => by rcases ht i hi with h | h <;> rw [h] <;> norm_num), hxd]
+    rfl
+  · intro n hn
+    exact tverskyAt_congr' _ _ _ _ _ _ _ _ (2 * n + 1) n
+      (fun s hs => oneHot2_fg _ p n s hs (hp _ (idx_lt n N _ s hn hs)))
+      (fun s hs => oneHot2_fg _ y.data n s hs (ht _ (idx_lt n N _ s hn hs)))
+
+/-- a binary segmentation compared with itself gives index 1 in every mixed encoding (any
+    `alpha`, `beta`; non-empty foreground or `ε ≠ 0`): all values for the three encodings that
+    return one value per image, the foreground values for one-hot prediction / label map. -/
+theorem C16_tversky_encoding_identical (red : Reduction) (N : Nat) (sp : List Nat) (hsp : 2 ≤ sp.length)
+    (hpos : 0 < prod sp) (p : Nat → K) (hp : IsBinary p (N * prod sp)) (alpha beta eps : K)
+    (hne : ∀ n, n < N → dotCh (prod sp) p p none n + eps ≠ 0)
+    (f1 f2 l : T K) (h1 : f1.shape = N :: 1 :: sp) (h1d : f1.data = p)
+    (h2 : f2.shape = N :: 2 :: sp) (h2d : f2.data = oneHot 2 (prod sp) p)
+    (hl : l.shape = N :: sp) (hld : l.data = p) :
+    tverskyIndex red f1 f2 none alpha beta eps false = .ok (reduceLoss red (N * 1) (fun _ => 1) none) ∧
+    tverskyIndex red f2 f1 none alpha beta eps false = .ok (reduceLoss red (N * 1) (fun _ => 1) none) ∧
+    tverskyIndex red f1 l none alpha beta eps false = .ok (reduceLoss red (N * 1) (fun _ => 1) none) ∧
+    ∃ F : Nat → K, tverskyIndex red f2 l none alpha beta eps false = .ok (reduceLoss red (N * 2) F none) ∧
+      ∀ n, n < N → F (2 * n + 1) = 1 := by
+  have hself : ∀ k, k < N * 1 → tverskyAt (prod sp) p p none alpha beta eps k = 1 := fun k hk =>
+    tverskyAt_self_binary _ p none alpha beta eps k
+      (fun s hs => hp.sq _ (idx_lt k N _ s (by omega) hs)) (hne k (by omega))
+  refine ⟨?_, ?_, ?_, ?_⟩
+  · rw [C16_tversky_encoding_pred1_target2 red N sp hsp f1 f2 p h1 h2 h2d hp, h1d]
+    congr 1; exact reduceLoss_congr hself
+  · rw [C16_tversky_encoding_pred2_target1 red N sp hsp f2 f1 p h2 h1 h2d hp, h1d]
+    congr 1; exact reduceLoss_congr hself
+  · rw [C16_tversky_encoding_pred1_labels red N sp hsp hpos f1 l h1 hl (hld ▸ hp), h1d, hld]
+    congr 1; exact reduceLoss_congr hself
+  · obtain ⟨e1, e2⟩ := C16_tversky_encoding_pred2_labels red N sp hsp hpos f2 l p h2 hl h2d hp (hld ▸ hp) alpha beta eps
+    refine ⟨_, e1, fun n hn => ?_⟩
+    rw [e2 n hn, hld]; exact hself n (by omega)
+
+/-- a label outside `[0, C)` in the label map of a two-class prediction is rejected. -/
+theorem C16_tversky_labels_out_of_range (red : Reduction) (N : Nat) (sp : List Nat) (hsp : 2 ≤ sp.length)
+    (hpos : 0 < prod sp) (x y : T K) (hx : x.shape = N :: 2 :: sp) (hy : y.shape = N :: sp) (alpha beta eps : K)
+    (i : Nat) (hi : i < N * prod sp) (hb : y.data i < 0 ∨ 2 ≤ y.data i) :
+    tverskyIndex red x y none alpha beta eps false = .error "err:runtime:scatter-index" := by
+  unfold tverskyIndex
+  rw [tverskyPrep_pred2_labels_bad N sp hsp hpos x y hx hy alpha beta eps i hi hb]; rfl
+
+end Encodings
+
+/-- concrete instance: the segmentation `[1, 0, 1, 1]` (2×2) in the four mixed encodings, compared with
+    itself (`alpha = 3/10`, `beta = 7/10`, `ε = 0`); one-hot data is `[0, 1, 0, 0, 1, 0, 1, 1]`. -/
+example :
+    let fg : T ℚ := ⟨[1, 1, 2, 2], fun i => [1, 0, 1, 1].getD i 0⟩
+    let oh : T ℚ := ⟨[1, 2, 2, 2], fun i => [0, 1, 0, 0, 1, 0, 1, 1].getD i 0⟩
+    let lab : T ℚ := ⟨[1, 2, 2], fun i => [1, 0, 1, 1].getD i 0⟩
+    tverskyIndex .none fg oh none (3 / 10) (7 / 10) 0 false = .ok [1] ∧
+    tverskyIndex .none oh fg none (3 / 10) (7 / 10) 0 false = .ok [1] ∧
+    tverskyIndex .none fg lab none (3 / 10) (7 / 10) 0 false = .ok [1] ∧
+    tverskyIndex .none oh lab none (3 / 10) (7 / 10) 0 false = .ok [1, 1] ∧
+    (List.range 8).map (oneHot 2 4 lab.data) = [0, 1, 0, 0, 1, 0, 1, 1] := by
+  decide +kernel
 
 end Deepali
